@@ -34,13 +34,15 @@ CONFIGS = {
     "strict_dbg": (["--features", "strict-parser"], DBG),
     "nodef": (["--no-default-features"], REL),
     "alloc": (["--no-default-features", "--features", "alloc,easy-functions"], REL),
+    "unsafe_fnv": (["--features", "unsafe,opt-reduce-fnv-table"], REL),
+    "all": (["--features", "unsafe,opt-reduce-fnv-table,strict-parser"], REL),
 }
 
 # Body counts confirmed on the pinned tree (fail closed below ~90 % of them:
 # a build that silently analysed a different / partial crate must not pass).
 BODY_FLOOR = {
     "dbg": 340, "rel": 340, "unsafe": 360, "unsafe_dbg": 360, "unchecked": 360,
-    "fnv": 340, "strict": 340, "strict_dbg": 340, "nodef": 310, "alloc": 320,
+    "fnv": 340, "strict": 340, "strict_dbg": 340, "nodef": 310, "alloc": 320, "unsafe_fnv": 360, "all": 360,
 }
 
 
